@@ -2,6 +2,8 @@
    Only statements, each closed by [exact] of a lemma proved elsewhere, and their assumptions. *)
 From NiflyVerif Require Import Res UtilModel UtilSpec CompactProofs EraseProofs FillProofs StripProofs.
 From NiflyVerif Require Import InsertSpec RankProofs ExpandProofs InsertProofs.
+From NiflyVerif Require Import MapKeysModel MapKeysSpec MapKeysProofs MapKeysCollapse.
+From Coq Require Import Sorted Permutation.
 Local Open Scope N_scope.
 
 (* EraseVectorIndices: for a strictly ascending index list and a vector shorter than 2^w
@@ -123,6 +125,84 @@ Theorem C18_collapse_expand : forall (idx : list N) (n m : N) (j : nat) (p : N),
 Proof. exact collapse_expand. Qed.
 Print Assumptions C18_collapse_expand.
 
+(* ApplyIndexMapToMapKeys (NifUtil.hpp:132-153). keyMap is the list of entries in the order the
+   container iterates (ascending keys for a std::map, any order for an unordered_map), kt the key
+   type (int, uint16_t, uint32_t), the result the new container listed by ascending key.
+   For ALL inputs -- any keys, any index map (empty, negative entries, non-injective), any offset,
+   any iteration order -- the loop ends without reading outside indexMap, and its only fault is the
+   signed overflow of d.first + defaultOffset for a key outside the index map ([mk_noub], undefined
+   behaviour in C++; impossible for uint32_t keys). Otherwise the result is the map the naive
+   definition gives for the key renaming the code computes, casts to the key type included
+   ([mk_ctarget]). *)
+Theorem C18_mapkeys_defined : forall (V : Type) (kt : mk_kty) (km : list (Z * V)) (im : list Z) (off : Z),
+  mapkeys_model kt km im off =
+  if forallb (fun d => mk_noub kt im off (fst d)) km
+  then Ok (mapkeys_spec_with (mk_ctarget kt im off) km)
+  else Fault.
+Proof. exact @mapkeys_defined. Qed.
+Print Assumptions C18_mapkeys_defined.
+
+(* the precondition the C++ needs for the documented behaviour: every new key (indexMap[k] for a
+   surviving key inside the map, k + defaultOffset for a key outside) is a value of the key type.
+   Then the result is [mapkeys_spec]: the naive definition without widths or casts. *)
+Theorem C18_mapkeys_correct : forall (V : Type) (kt : mk_kty) (km : list (Z * V)) (im : list Z) (off : Z),
+  mk_fits (mk_kty_w kt) (mk_kty_sg kt) im off km ->
+  mapkeys_model kt km im off = Ok (mapkeys_spec km im off).
+Proof. exact @mapkeys_correct. Qed.
+Print Assumptions C18_mapkeys_correct.
+
+(* What the naive result is, for ALL inputs (injective or not):
+   keys strictly ascending, hence no key twice; *)
+Theorem C18_mapkeys_result_sorted : forall (V : Type) (km : list (Z * V)) (im : list Z) (off : Z),
+  StronglySorted Z.lt (map fst (mapkeys_spec km im off)).
+Proof. exact @mapkeys_spec_sorted. Qed.
+Print Assumptions C18_mapkeys_result_sorted.
+
+(* a look-up of new key t returns the value of the LAST entry, in iteration order, whose old key is
+   sent to t, and nothing when no entry is sent there: on a collision the later entry wins and the
+   earlier one is lost (for an unordered_map "later" is decided by the hash table); *)
+Theorem C18_mapkeys_lookup_last : forall (V : Type) (km : list (Z * V)) (im : list Z) (off : Z) (t : Z),
+  mk_find t (mapkeys_spec km im off) = mk_last t (mk_image im off km).
+Proof. exact @mapkeys_spec_find. Qed.
+Print Assumptions C18_mapkeys_lookup_last.
+
+(* every entry of the result is an old entry (k, v) with its value unchanged and its key the image
+   of k under the map; an old key sent to "deleted" (mk_target = None) therefore never shows up. *)
+Theorem C18_mapkeys_entries_sound : forall (V : Type) (km : list (Z * V)) (im : list Z) (off : Z) (t : Z) (v : V),
+  In (t, v) (mapkeys_spec km im off) -> exists k, In (k, v) km /\ mk_target im off k = Some t.
+Proof. exact @mapkeys_spec_sound. Qed.
+Print Assumptions C18_mapkeys_entries_sound.
+
+(* When no two surviving entries get the same new key ([mk_injective]) no entry is lost: every
+   surviving entry is found under its new key with its value, and the result is exactly the list
+   of surviving entries under their new keys, re-ordered by key. *)
+Theorem C18_mapkeys_injective_complete : forall (V : Type) (km : list (Z * V)) (im : list Z) (off k : Z) (v : V) (t : Z),
+  mk_injective im off km -> In (k, v) km -> mk_target im off k = Some t ->
+  mk_find t (mapkeys_spec km im off) = Some v.
+Proof. exact (fun V km im off k v t => @mapkeys_spec_complete V km im off k v t). Qed.
+Print Assumptions C18_mapkeys_injective_complete.
+
+Theorem C18_mapkeys_injective_perm : forall (V : Type) (km : list (Z * V)) (im : list Z) (off : Z),
+  mk_injective im off km -> Permutation (mapkeys_spec km im off) (mk_image im off km).
+Proof. exact @mapkeys_spec_perm. Qed.
+Print Assumptions C18_mapkeys_injective_perm.
+
+(* the other case, explicitly: the result never has more entries than survive, and it has exactly
+   as many iff there is no collision -- a non-injective renaming always loses entries. *)
+Theorem C18_mapkeys_length : forall (V : Type) (km : list (Z * V)) (im : list Z) (off : Z),
+  (length (mapkeys_spec km im off) <= length (mk_image im off km) <= length km)%nat /\
+  (length (mapkeys_spec km im off) = length (mk_image im off km) <-> mk_injective im off km).
+Proof. exact @mapkeys_spec_length. Qed.
+Print Assumptions C18_mapkeys_length.
+
+(* the use the comment describes -- the collapse map of a deletion (C18_collapse_correct) with
+   defaultOffset = -(number of deleted positions) -- never collides, for any set of distinct keys *)
+Theorem C18_mapkeys_collapse_injective : forall (V : Type) (km : list (Z * V)) (idx : list N) (n : N),
+  NoDup idx -> Forall (fun i => i < n) idx -> NoDup (map fst km) ->
+  mk_injective (collapse_spec idx n) (- Z.of_N (vlen idx)) km.
+Proof. exact @mapkeys_collapse_injective. Qed.
+Print Assumptions C18_mapkeys_collapse_injective.
+
 (* Non-vacuity: concrete inputs meeting the hypotheses, with non-trivial results. *)
 Example C18_erase_example :
   sorted_lt [1; 3] /\ vlen [10; 11; 12; 13; 14] < 2 ^ 16 /\
@@ -159,3 +239,40 @@ Example C18_expand_example :
   expand_model 16 false [1; 3] 3 = Ok [0; 2; 4]%Z /\
   free_rank [1; 3] 4 2.
 Proof. repeat split; try (repeat constructor; fail); reflexivity. Qed.
+
+(* map keys: positions 1 and 3 of 5 deleted (collapse map [0;-1;1;-1;2], offset -2); the entries at
+   keys 0, 3, 4, 7 (std::map<int,_> order): key 3 is deleted, 4 -> 2, 7 lies beyond the map -> 5 *)
+Example C18_mapkeys_example :
+  mk_fits (mk_kty_w MK_int) (mk_kty_sg MK_int) (collapse_spec [1; 3] 5) (-2) [(0, 100); (3, 101); (4, 102); (7, 103)]%Z /\
+  mk_injective (collapse_spec [1; 3] 5) (-2) [(0, 100); (3, 101); (4, 102); (7, 103)]%Z /\
+  mapkeys_model MK_int [(0, 100); (3, 101); (4, 102); (7, 103)]%Z (collapse_spec [1; 3] 5) (-2)
+    = Ok [(0, 100); (2, 102); (5, 103)]%Z.
+Proof.
+  split; [repeat constructor; cbn; lia|].
+  split; [|reflexivity].
+  unfold mk_injective, mk_injective_with.
+  match goal with |- NoDup ?l => let l' := eval vm_compute in l in change (NoDup l') end.
+  repeat (apply NoDup_cons; [cbn; intuition lia|]). apply NoDup_nil.
+Qed.
+
+(* the non-injective case: keys 0 and 5 are both sent to 3 (indexMap[0] = 3, 5 - 2 = 3); the entry
+   that comes later in iteration order wins, the other one is lost (one entry instead of two) *)
+Example C18_mapkeys_collision_example :
+  mk_fits (mk_kty_w MK_int) (mk_kty_sg MK_int) [3]%Z (-2) [(0, 100); (5, 101)]%Z /\
+  ~ mk_injective [3]%Z (-2) [(0, 100); (5, 101)]%Z /\
+  mapkeys_model MK_int [(0, 100); (5, 101)]%Z [3]%Z (-2) = Ok [(3, 101)]%Z /\
+  mapkeys_model MK_int [(5, 101); (0, 100)]%Z [3]%Z (-2) = Ok [(3, 100)]%Z.
+Proof.
+  split; [repeat constructor; cbn; lia|].
+  split; [|split; reflexivity].
+  unfold mk_injective, mk_injective_with. intros H.
+  match type of H with NoDup ?l => let l' := eval vm_compute in l in change (NoDup l') in H end.
+  inversion H as [|? ? Hn _]. apply Hn. left. reflexivity.
+Qed.
+
+(* outside the precondition: with uint16_t keys 5 - 7 wraps to 65534 (C18_mapkeys_defined still
+   says what happens); with int keys INT_MAX + 1 is undefined behaviour: the model faults *)
+Example C18_mapkeys_wrap_example :
+  mapkeys_model MK_u16 [(0, 100); (5, 101)]%Z [3]%Z (-7) = Ok [(3, 100); (65534, 101)]%Z /\
+  mapkeys_model MK_int [(1, 100); (2147483647, 101)]%Z [0]%Z 1 = Fault.
+Proof. split; reflexivity. Qed.
